@@ -135,10 +135,18 @@ def _qw_task(task, out):
                         out["points"] += 1
                         fields = {"kind": "qw", "qtype": qname, "axis": axis, "optimizer": oname, "grouped": gs is not None, "bits": bits}
                         case = dict(task, only=c)
+                        # reference predicate: configurations the property lists as supported must not be rejected
+                        n_axis = None if axis not in (0, -1) else (1 if len(shape) == 1 else numel // shape[axis])
+                        if bits == 8:
+                            supported = axis in (0, -1) and gs is None and oname in ("none", "absmax") and (len(shape) > 1 or shape[0] == 1)
+                        else:
+                            supported = axis in (0, -1) and oname in ("none", "max") and (gs is None or (gs <= n_axis and n_axis % gs == 0))
                         try:
                             q = quantize_weight(x, qt, axis, gs, opt)
                         except ValueError as e:
                             out["counters"]["rejected"] = out["counters"].get("rejected", 0) + 1
+                            if supported:
+                                out["violations"].append(violation(PID, case, dict(fields, sub="rejected_supported"), f"rejected_supported: quantize_weight{tuple(c)} is a supported configuration but raised ValueError: {e}"))
                             continue
                         except Exception as e:  # noqa
                             out["violations"].append(violation(PID, case, dict(fields, sub="wrong_exception"), f"wrong_exception: quantize_weight{tuple(c)} raised {type(e).__name__}: {e} (only ValueError is allowed)"))
@@ -342,6 +350,19 @@ def _gs_linear_task(task, out):
             out["points"] += 1
             fields = {"kind": "gs_linear", "qtype": qname}
             case = dict(task, only=c)
+            if n <= 512 and n % 7 == 0:
+                # a single output feature (value head): the quantization axis has size one
+                try:
+                    m1 = QLinear(n, 1, bias=False, weights=num.qt(qname))
+                    with torch.no_grad():
+                        m1.weight.copy_(((torch.arange(n, dtype=torch.float32) * 7) % 13 - 6).reshape(1, n) / 8)
+                    y1 = _module_forward(m1, ((torch.arange(2 * n, dtype=torch.float32) * 5) % 11 - 5).reshape(2, n) / 4, case, dict(fields, out_features=1), out, f"QLinear({n},1,{qname})")
+                    if y1 is not None and tuple(y1.shape) != (2, 1):
+                        out["violations"].append(violation(PID, case, dict(fields, sub="shape"), f"shape: QLinear({n},1) output {tuple(y1.shape)}"))
+                    m1.freeze()
+                    _module_forward(m1, ((torch.arange(2 * n, dtype=torch.float32) * 5) % 11 - 5).reshape(2, n) / 4, case, dict(fields, out_features=1), out, f"frozen QLinear({n},1,{qname})")
+                except Exception as e:  # noqa
+                    out["violations"].append(violation(PID, case, dict(fields, sub="construct_raised"), f"construct_raised: QLinear({n},1,weights={qname}): {type(e).__name__}: {e}"))
             try:
                 m = QLinear(n, 2, bias=True, weights=num.qt(qname))
             except Exception as e:  # noqa
